@@ -45,6 +45,8 @@ def run_c10(ctx: Ctx, M: AnnotateModel):
             continue
         if any(c.startswith("is_balanced") or "balanced" in c.split("(")[0] for c, o in rec.conds if not o):
             continue  # span judged unbalanced: skip/wrap handling, outside this clause
+        if rec.has(f"{E} < {S}", True) or rec.has(f"{S} > {E}", True):
+            continue  # contradicts the input assumption of C09/C10 (spans are given with start <= end): handling of inverted spans is outside the clause
         n_direct += 1
         pieces = [e for e in rec.emits if e["kind"] == "piece"]
         if len(pieces) != 1:
